@@ -119,6 +119,19 @@ def _split(out):
 
 
 def run_harnesses(pid, names, tier):
+    """One Kani build+verify at a time per cache directory: concurrent checks share .cache/kani-target, and runs that
+    overlapped there produced a spurious FAILED once; the lock makes concurrent use safe (it only serialises)."""
+    import fcntl
+    os.makedirs(CACHE, exist_ok=True)
+    with open(os.path.join(CACHE, "kani.lock"), "w") as lk:
+        fcntl.flock(lk, fcntl.LOCK_EX)
+        try:
+            return _run_harnesses(pid, names, tier)
+        finally:
+            fcntl.flock(lk, fcntl.LOCK_UN)
+
+
+def _run_harnesses(pid, names, tier):
     out = {"harnesses": [], "cmds": [], "solver_s": 0.0, "trusted": set(["Kani 0.68 / CBMC 6.11 (bit-precise machine arithmetic, overflow checks on)", "harness Deserializer/SeqAccess of kani/harness/zc.rs stands for every serde data format"])}
     for n in names:
         if n not in H:
@@ -162,7 +175,9 @@ def run_harnesses(pid, names, tier):
                     if any("unwinding assertion" in f for f in failed) and len(failed) == sum(1 for f in failed if "unwinding assertion" in f):
                         rec["machinery"] = "unwinding bound too small: %s" % failed
                     rec["detail"] = "FAILED: " + "; ".join(failed)[:1500]
-                    rec["replay"], rec["has_input"] = _playback(scratch, crate, feats, h, meta, failed, c)
+                    rec["replay"], rec["has_input"], confirmed = _playback(scratch, crate, feats, h, meta, failed, c)
+                    if not confirmed and not rec.get("machinery"):
+                        rec["machinery"] = "harness %s FAILED once but the separate confirmation run did not fail again (%s)" % (h, "; ".join(failed)[:300])
                 else:
                     rec["machinery"] = "unrecognised Kani output\n" + c[-2000:]
                     rec["detail"] = "?"
@@ -206,7 +221,11 @@ def _playback(scratch, crate, feats, h, meta, failed, chunk):
         body.append("// ---- Kani's generated playback test ----")
         body.append(playback.group(1))
     body.append("/* ---- verifier output ----\n%s\n*/" % chunk[-3000:])
-    return "\n".join(body) + "\n", bool(vals)
+    # the playback run is a second, separate verification of the same harness: it must fail again for the failure to count
+    confirmed = "VERIFICATION:- FAILED" in txt or bool(vals)
+    if not txt:
+        confirmed = True  # confirmation run timed out: keep the first verdict
+    return "\n".join(body) + "\n", bool(vals), confirmed
 
 
 def replay_native(pid, path):
